@@ -1,0 +1,30 @@
+//go:build verif
+
+// Contracts for the deductive checks under /verif (comment-only; no code).
+
+package blockstore
+
+// ---- shared abstractions of go-cid / go-block-format (assumed, deterministic) -----------
+//@ spec cidPrefix(c cid.Cid) cid.Prefix
+//@ func ext (github.com/ipfs/go-cid.Cid).Prefix
+//@   ensures result == cidPrefix(c)
+// the CID a prefix assigns to some bytes (the hash function of the system)
+//@ spec sumCid(p cid.Prefix, data []byte) cid.Cid
+//@ func ext (github.com/ipfs/go-cid.Prefix).Sum
+//@   ensures err == nil ==> result0 == sumCid(p, data)
+//@ func ext (github.com/ipfs/go-cid.Cid).Equals
+//@   ensures result == (c == o)
+//@ spec blockBytes(b blocks.Block) []byte
+//@ func iface github.com/ipfs/go-block-format.Block.RawData
+//@   ensures result == blockBytes(self)
+
+// ---- C03: the validating blockstore never returns bytes that do not hash to the CID ------
+//@ func iface Blockstore.Get
+//@ func (*ValidatingBlockstore).Get
+//@   prop C03
+//@   arith int
+//@   requires bs != nil
+//@   modifies all
+//@   ensures[hash_matches] err == nil ==> sumCid(cidPrefix(c), blockBytes(result0)) == c
+//@   ensures[from_inner_store] err == nil ==> result0 == res("invoke:Get#0") && res("invoke:Get#0", 1) == nil
+//@   site[asked_for_c] invoke:Get : arg2 == c
